@@ -1,5 +1,6 @@
 SPECIFICATION SpecSim
 CONSTANTS
+  Pre <- NoPre
   FailingGov = FALSE
   MaxHeight = 8
   MaxTx = 16
